@@ -1,9 +1,54 @@
 N = {"quick": 500, "thorough": 30000}
 EXHAUSTIVE = {"quick": False, "thorough": True}
-RULE = "placeholder"
-ASSUMPTIONS = []
+RULE = ("random event histories for 1-2 configured instruments (plus items for a non-configured key and reconnecting notices): 1-40 events, "
+        "each a Snapshot (distinct prices, non-zero amounts, shuffled) or an Update with 0-12 (thorough: 0-16) unsorted levels per side over a grid of "
+        "2-8 (thorough: 2-12) prices at 5 different scales, 10/30/60 % zero amounts (written 0, 0.0, 0.000), duplicates of a price inside one update, "
+        "one-sided updates, repeated / decreasing sequence numbers; every event is built with the real OrderBook::new and applied with the real "
+        "OrderBook::update, and the whole stream of each case is replayed through the real OrderBookL2Manager::run over an OrderBookMapMulti. "
+        "thorough additionally enumerates, for bids and for asks, every sequence of <= 2 updates with <= 2 levels each over "
+        "{front, present, middle, back} x {delete, set} from a two-level book (10 806 cases). A case is distinct by the SHA-1 of its op lines and "
+        "non-trivial when the implementation's observation block changes at least once")
+ASSUMPTIONS = [
+    "every Snapshot event carries sides with pairwise distinct prices and non-zero amounts (OrderBook::new sorts but neither dedups nor drops zeros; "
+    "at the excluded points the real code keeps a zero-amount level until it is deleted, and with duplicate prices binary_search_by hits an "
+    "unspecified one of the equal levels so duplicates persist) - updates are unrestricted",
+    "slice::binary_search_by on a strictly sorted Vec returns the position a front-to-back scan finds (documented std semantics; modelled as the scan)",
+    "sort_unstable_by is modelled as a stable sort; Rust leaves the order of equal-priced levels inside one update unspecified (the harness prints the "
+    "stored levels of every event so a different order shows up as a correspondence break; all theorems about updates hold for any order)",
+    "exact rational arithmetic; rust_decimal rounding of the volume-weighted mid-price is compared to 1e-18; Decimal division by zero "
+    "(best amounts summing to 0, only possible with negative amounts) panics in Rust and is not modelled; generated amounts are >= 0",
+    "mid-price with one empty side: the property text does not define it; the spec follows the documented and test-pinned convention (best price of the other side)",
+    "time_engine (copied verbatim from the event) is not modelled; the manager is run single-threaded over a finite stream (lock contention with readers not modelled)",
+]
 SOURCE_FILES = ["barter-data/src/books/mod.rs", "barter-data/src/books/manager.rs", "barter-data/src/books/map.rs", "barter-data/src/subscription/book.rs"]
+
+_CLAUSE = {"seq": "sequence_of_last_event", "bids": "levels_equal_map", "asks": "levels_equal_map", "mid": "mid_price",
+           "vwmid": "volume_weighted_mid_price", "snap0": "depth_snapshot", "snap1": "depth_snapshot", "snap3": "depth_snapshot",
+           "book": "manager_book", "skip": "manager_skip"}
+
+
+def signature(ops, k, key, impl_line, spec_line):
+    op = ops[k].split()[0] if k < len(ops) else "?"
+    return f"clause={_CLAUSE.get(key, key)} op={op}"
+
+
 CLAIM = True
-TECHNIQUE = "placeholder"
-LEVEL_TEXT = "placeholder"
-LEVEL_NOTE = "placeholder"
+TECHNIQUE = ("Lean 4: invariant (strict order, no zero amount) by induction over event histories; refinement of upsert_single/upsert/update to point "
+             "updates of a price->amount function; canonicity of the sorted representation; refinement to an executable unordered-map specification "
+             "for every observable; correspondence of the model with OrderBook::{new,update,snapshot,mid_price,volume_weighed_mid_price} and "
+             "OrderBookL2Manager::run")
+LEVEL_TEXT = ("Proof. Lean theorems over the order-book model (lean/BarterModel/Props/C05.lean), all full strength (no _partial): for every finite history of "
+              "Snapshot/Update events with arbitrary update level lists (unsorted, duplicate prices, zero amounts, absent prices) from any well-formed book, "
+              "bids stay strictly descending, asks strictly ascending, no price twice, no zero amount (inv, sorted_inv, strictly_ordered); one upsert is one point "
+              "update of the price->amount function - zero deletes, other amounts set, deleting an absent level leaves the list unchanged (abs_upsertSingle, "
+              "delete_absent_noop, abs_upsert), hence the book denotes the fold of the events over the map (abs_run); the representation is canonical, so the "
+              "book holds exactly the map's levels (canonical, holds_exactly); best bid/ask are the max/min of the support (best_bid_is_max, best_ask_is_min, "
+              "no_best_iff_empty); the whole book, mid_price, volume_weighed_mid_price and snapshot(d) for every d equal those of an executable unordered-map "
+              "specification written from the property text (refines_spec, refines_spec_from, snapshot_depth); sequence = that of the last applied event "
+              "(sequence_last); the manager applies each instrument's items to that instrument's book only (manager_applies_per_instrument); snapshots made by "
+              "OrderBook::new from distinct-price non-zero levels satisfy the hypothesis (new_wf). Unbounded in history length, level-list length and prices. "
+              "The model is tied to the code by running the same histories through the real OrderBook and OrderBookL2Manager on every run.")
+LEVEL_NOTE = ("Trusted: Lean kernel; axioms propext/Classical.choice/Quot.sound only; the hand-written model (binary_search_by as a scan, sort_unstable_by as a "
+              "stable sort), tied by sampled correspondence (500 quick / 30k random + 10.8k small-scope exhaustive thorough); harness, driver, orchestrator. "
+              "Hypothesis: Snapshot events carry strictly ordered sides without zero amounts (guaranteed by OrderBook::new for distinct-price non-zero input; "
+              "the code does not enforce it - documented precondition). Exact rationals instead of rust_decimal; time_engine and lock contention not modelled.")
